@@ -29,6 +29,11 @@ Proof. exact established_undisturbed. Qed.
 Theorem C17_handshake_sees_latest : forall es s, i_cur (final s es) = last_reload (i_cur s) es.
 Proof. exact handshake_sees_latest. Qed.
 
+Theorem C17_returning_sees_latest : forall es s wc,
+  let cur := last_reload (i_cur s) es in
+  snd (istep (final s es) (IReturning wc)) = if negb (snd cur) || wc then [1; fst cur] else [0].
+Proof. exact returning_sees_latest. Qed.
+
 (* the requested name: --tls-server-name over --hostname over the URL host, whatever the others are *)
 Theorem C17_sni_overrides : forall url hn n, select_name url hn (Some n) = n.
 Proof. exact sni_overrides. Qed.
